@@ -48,7 +48,7 @@ func drivers(quick bool) []conc.Driver {
 		s := s
 		ds = append(ds, conc.Driver{Name: s.Name(), Cfg: cfg, Mk: func() vrt.Run { return s.Mk() }, Fallback: []int{0, 1, 2, 3, 4, 5, 6}})
 	}
-	// many runs (the size ladder of the run list): 2^k-1, 2^k, 2^k+1 chunks of one value, ONE schedule each
+	// many runs (the size ladder of the run list): 2^k-1, 2^k, 2^k+1 (also 3*2^k, 10^j-1, 10^j, 10^j+1, 5*10^j) chunks of one value, ONE schedule each
 	// (the canonical one; the schedules of such a run are beyond enumeration), race oracle on
 	for _, n := range enum.Ladder(15, 513) {
 		if quick && n != 257 && n != 64 {
